@@ -12,6 +12,8 @@
 (*   SHint(v)       size_hint answered (v = -1: None)                      *)
 (*   SElem / SElemRet  next_element: an element is materialised (MkDe) or  *)
 (*                  not (the surplus probe), None, or an element error     *)
+(* What the format says about itself (is_human_readable) is not an input   *)
+(* of the rule: scripted sources are run with both answers.                *)
 (* Outcome rule: Ok only if exactly N elements were materialised, no error *)
 (* occurred, the up-front hint (if any) was N, and the input then ended    *)
 (* (None) - or announced "nothing left" (hint 0), the documented           *)
